@@ -5,7 +5,8 @@
              Topic names and host names must be ASCII (Kafka restricts topic names to [a-zA-Z0-9._-]; afkak
              decodes both with read_short_ascii); group protocol / member ids are UTF-8 (read_short_text).
      view_*  the value the decoder must return for that response, field for field.
-   Nothing here is executed by the runner; it only appears in theorem statements. *)
+   The theorems are stated with these functions; the runner ops 201..214 (Model.RespRun) evaluate them on every
+   generated case so that the generator is known to stay inside the hypotheses. *)
 From AV Require Import Base.Util Model.Prim Model.Crc Model.MsgSet Model.KafkaSpecResp Model.Responses.
 
 Definition i16 := in_i16.
